@@ -246,6 +246,33 @@ pub fn c03_case(t: &[u8], embedded: bool, refs: &FamRefs, out: &mut Vec<Violatio
 		return 1;
 	}
 	let want = fmt_auth(&m);
+	if embedded {
+		// the same authority reached through the owned buffer's editing handle, without any edit
+		evals += 1;
+		let g = guard(|| {
+			let mut buf = rirefbuf_of(t)?;
+			let viewed = buf.authority_mut().map(|h| (h.as_authority().as_bytes().to_vec(), auth_accessors(&h)));
+			let mut buf2 = rirefbuf_of(t)?;
+			let taken = buf2.authority_mut().map(|h| {
+				let a = h.into_authority();
+				(a.as_bytes().to_vec(), auth_accessors(a))
+			});
+			Some((viewed, taken))
+		});
+		match g {
+			Guard::Ok(Some((viewed, taken))) => {
+				for (op, got) in [("authority_mut().as_authority", viewed), ("authority_mut().into_authority", taken)] {
+					match got {
+						Some((text, parts)) if text == auth_text && parts == m => {}
+						Some((text, parts)) => out.push(mk(op).obs(format!("{:?} {}", lossy(&text), fmt_auth(&parts))).exp(format!("{:?} {}", lossy(&auth_text), want))),
+						None => out.push(mk(op).obs("<no handle>").exp(lossy(&auth_text))),
+					}
+				}
+			}
+			Guard::Ok(None) => out.push(mk("RiRefBuf::new").obs("rejected").exp("accepted")),
+			Guard::Panic(pm) => out.push(mk("authority_mut()").feat("panic_at", panic_site(&pm)).obs(format!("panic: {pm}")).exp("no panic")),
+		}
+	}
 	for (op, got) in [("accessors", guard(|| auth_accessors(a))), ("parts", guard(|| auth_parts(a)))] {
 		evals += 1;
 		match got {
